@@ -238,6 +238,7 @@ type Exec struct {
 	simpCache map[*Term]*Term
 
 	undo          []undoRec
+	freshDepth    int
 	logUndo       bool
 	deferStack    []*frame
 	cur           *frame
@@ -291,6 +292,7 @@ func (x *Exec) resetPath(decisions []uint64) {
 	x.nAssertUnsat, x.nAssertConst = 0, 0
 	x.fs = nil
 	x.env = nil
+	x.freshDepth = 0
 }
 
 func (x *Exec) freshVar(tag string, w int) *Term {
@@ -678,6 +680,104 @@ func (x *Exec) rollback() {
 		u.m.undo(u)
 	}
 	x.undo = x.undo[:0]
+}
+
+// ---- "in a fresh process": run a harness helper on the heap as it was when the path started
+//
+// vFresh(name, args) calls verifFresh_<name>(args) after every heap, map and package-variable write made so far
+// on this path has been undone (package initialisation stays), and puts all of it back afterwards. The helper
+// sees exactly the state a newly started process has; natively the prelude gets the same by re-executing the
+// test binary. Only immutable values (the strings in args, the string result) cross the boundary.
+
+type redoRec struct {
+	u   undoRec
+	cur Value
+	key Value
+}
+
+func (x *Exec) freshRun(pkg *ssa.Package, name string, args Slice) Value {
+	fn := pkg.Func("verifFresh_" + name)
+	if fn == nil {
+		unsupported("vFresh: no function verifFresh_%s", name)
+	}
+	vals := make([]Value, len(args.Data))
+	for i, a := range args.Data {
+		st, ok := a.(Str)
+		if !ok {
+			unsupported("vFresh: argument %d is not a string", i)
+		}
+		vals[i] = st
+	}
+	saved := x.undo
+	var redo []redoRec
+	for i := len(saved) - 1; i >= 0; i-- {
+		u := saved[i]
+		if u.p != nil {
+			redo = append(redo, redoRec{u: u, cur: *u.p})
+			*u.p = u.old
+			continue
+		}
+		switch u.mop {
+		case 1:
+			n := len(u.m.Keys) - 1
+			redo = append(redo, redoRec{u: u, key: u.m.Keys[n], cur: u.m.Vals[n]})
+		case 2:
+			redo = append(redo, redoRec{u: u, cur: u.m.Vals[u.i]})
+		default:
+			redo = append(redo, redoRec{u: u})
+		}
+		u.m.undo(u)
+	}
+	x.undo = nil
+	x.freshDepth++
+	var res Value
+	func() {
+		defer func() {
+			if r := recover(); r != nil {
+				if pe, ok := r.(pathEnd); ok {
+					panic(pe)
+				}
+				// the heap is the helper's, not the path's: nothing after this point can be trusted
+				panic(pathEnd{fmt.Sprintf("panic inside a vFresh helper: %v", r)})
+			}
+		}()
+		res = x.callSSA(fn, []Value{Slice{Data: vals}}, nil)
+	}()
+	x.freshDepth--
+	// undo what the helper wrote, then put the path's own writes back in their original order
+	x.rollback()
+	for i := len(redo) - 1; i >= 0; i-- {
+		r := redo[i]
+		if r.u.p != nil {
+			*r.u.p = r.cur
+			continue
+		}
+		mo := r.u.m
+		switch r.u.mop {
+		case 1:
+			mo.Keys = append(mo.Keys, r.key)
+			mo.Vals = append(mo.Vals, r.cur)
+			mo.Dead = append(mo.Dead, false)
+			mo.live++
+			if h, ok := keyHash(r.key); ok {
+				mo.idx[h] = len(mo.Keys) - 1
+			} else {
+				mo.nsym++
+			}
+		case 2:
+			mo.Vals[r.u.i] = r.cur
+		case 3:
+			mo.Dead[r.u.i] = true
+			mo.live--
+			if h, ok := keyHash(mo.Keys[r.u.i]); ok {
+				delete(mo.idx, h)
+			} else {
+				mo.nsym--
+			}
+		}
+	}
+	x.undo = saved
+	return res
 }
 
 func (x *Exec) global(g *ssa.Global) *Value {
